@@ -3,7 +3,7 @@
     OCaml natives; N, positive and nat stay the extracted inductive types. *)
 Require Extraction.
 Require Import ExtrOcamlBasic.
-From RepeV Require Import Model.C01 Model.C02 Model.C11 Model.Condvar Model.Peers Model.Fleet Model.Limits Model.Svs Model.Json Model.Registry Model.Beve Model.SvsCommit Model.JsonPtr Model.Router Model.Route Model.OffReader Model.ClientMux Model.Lifecycle Model.ClientFail.
+From RepeV Require Import Model.C01 Model.C02 Model.C11 Model.Condvar Model.Peers Model.Fleet Model.Limits Model.Svs Model.Json Model.Registry Model.Beve Model.SvsCommit Model.JsonPtr Model.Router Model.Route Model.OffReader Model.ClientMux Model.Lifecycle Model.ClientFail Model.WriterSM.
 Separate Extraction
   Model.C01.model_C01 Model.C01.ok_C01 Model.C01.c01_wf
   Model.C02.model_C02 Model.C02.ok_C02
@@ -22,4 +22,5 @@ Separate Extraction
   Model.OffReader.model_C16 Model.OffReader.ok_C16 Model.OffReader.ok_C16_clause Model.OffReader.c16_wf Model.OffReader.c16_obs_eqb
   Model.ClientMux.model_C04 Model.ClientMux.ok_C04 Model.ClientMux.c04_wf Model.ClientMux.c04_obs_eqb Model.ClientMux.brun
   Model.Lifecycle.model_C15 Model.Lifecycle.ok_C15 Model.Lifecycle.c15_wf Model.Lifecycle.c15_obs_match
-  Model.ClientFail.model_C06 Model.ClientFail.ok_C06 Model.ClientFail.c06_wf Model.ClientFail.c06_valid Model.ClientFail.obs_eqb.
+  Model.ClientFail.model_C06 Model.ClientFail.ok_C06 Model.ClientFail.c06_wf Model.ClientFail.c06_valid Model.ClientFail.obs_eqb
+  Model.WriterSM.model_C05 Model.WriterSM.model_with Model.WriterSM.ok_C05 Model.WriterSM.c05_wf Model.WriterSM.segs_eqb Model.WriterSM.parse_frames Model.WriterSM.after_interrupt Model.WriterSM.legacy_policy.
